@@ -14,6 +14,9 @@ Ltac bsnorm_in H :=
          | context [bs ?s] => let v := eval vm_compute in (bs s) in change (bs s) with v in H
          end.
 
+(* list-length arithmetic (byte and N are the same type; make that syntactic first) *)
+Ltac lens := unfold byte in *; repeat rewrite app_length in *; cbn [length] in *; lia.
+
 (* the next byte, if any, does not satisfy P *)
 Definition nhd (P : byte -> bool) (r : list byte) : Prop :=
   match r with b :: _ => P b = false | [] => True end.
@@ -48,7 +51,7 @@ Lemma pmap_back {A B} (f : A -> B) (p : parser A) i i' : p i = (Back, i') -> pma
 Proof. intros H. unfold pmap. now apply bind_back. Qed.
 
 (* one step of symbolic execution: the first parser of a bind succeeds, as shown by t *)
-Tactic Notation "step" tactic3(t) := (erewrite bind_ok; [ | solve [t] ]); cbv beta.
+Tactic Notation "step" tactic3(t) := (erewrite bind_ok; [ | solve [t] ]); cbv beta iota.
 Tactic Notation "stepback" tactic3(t) := (erewrite bind_back; [ | solve [t] ]); cbv beta.
 
 (* ------------------------------------------------------------------ literals *)
@@ -68,6 +71,10 @@ Proof. intros H. unfold literal. cbn. now rewrite H. Qed.
 
 Lemma try_literal_hd_fail a p b r : (a =? b) = false -> try_literal (a :: p) (b :: r) = (Ok false, b :: r).
 Proof. intros H. unfold try_literal. cbn. now rewrite H. Qed.
+
+Lemma try_literal_nhd a p i : match i with b :: _ => (a =? b) = false | [] => True end ->
+  try_literal (a :: p) i = (Ok false, i).
+Proof. destruct i as [|b r]; [reflexivity|]. apply try_literal_hd_fail. Qed.
 
 Lemma literal_nil_fail a p : literal (a :: p) [] = (Back, []).
 Proof. reflexivity. Qed.
@@ -565,7 +572,7 @@ Section StructLoop.
     step (apply ws_none; reflexivity).
     step (apply (literal_app [58])).
     step (apply (ws_blanks [32]); [repeat constructor | now apply render_ty_startok]).
-    step (apply Hvt; [exact Hx|]; rewrite !app_length in Hl |- *; lia).
+    step (apply Hvt; [exact Hx|]; lens).
     unfold ret. destruct f as [n t cs]. cbn in *. now subst cs.
   Qed.
 
@@ -589,8 +596,8 @@ Section StructLoop.
       { apply Nat.eqb_neq. bsnorm. cbn [app length]. lia. }
       rewrite El.
       bsnorm_in Hf. bsnorm_in HL. cbn [app length] in Hf, HL.
-      rewrite field_p_render; [|exact Hg | exact Hd | lia].
-      rewrite IH; [reflexivity | exact Hfs' | |]; rewrite app_length in *; lia.
+      rewrite field_p_render; [|exact Hg | exact Hd | lens].
+      rewrite IH; [reflexivity | exact Hfs' | |]; lens.
   Qed.
 
   Lemma struct_type_render fs x :
@@ -616,8 +623,8 @@ Section StructLoop.
       { destruct Hg as (Hn & Hc & _). rewrite render_field_nocomment by exact Hc.
         destruct (field_name_ok_hd _ Hn) as (b & n' & En & Hb). rewrite En. cbn [app]. now apply alpha_startok. }
       step (apply ws_none; exact Hst).
-      step (unfold separated0; rewrite field_p_render by (auto; lia);
-            rewrite sep_loop_fields by (auto; rewrite app_length in *; lia); reflexivity).
+      step (unfold separated0; rewrite field_p_render by (auto; lens);
+            rewrite sep_loop_fields by (auto; lens); reflexivity).
       step (apply ws_none; reflexivity).
       step (apply (literal_app [41])).
       reflexivity.
@@ -635,13 +642,17 @@ Proof.
   destruct (fcomments f); [|discriminate]. rewrite Hn2, Hw. auto.
 Qed.
 
+Lemma forallb_map_eq {X Y} (f : Y -> bool) (g : X -> Y) l :
+  forallb f (List.map g l) = forallb (fun x => f (g x)) l.
+Proof. induction l as [|a l IH]; cbn; [reflexivity|]. now rewrite IH. Qed.
+
 Lemma tywf_enum vs : tywf (TEnum vs) = true ->
   vs <> [] /\ forallb (fun v => negb (has_comments v)) vs = true
   /\ forallb field_name_ok (List.map vname vs) = true.
 Proof.
   unfold tywf. cbn [ty_names_ok ty_wf]. intros H. apply andb_true_iff in H. destruct H as [Hn Hw].
   destruct vs as [|v vs]; [discriminate|]. split; [discriminate|]. split; [exact Hw|].
-  unfold variant_names_ok in Hn. now rewrite forallb_map.
+  unfold variant_names_ok in Hn. now rewrite forallb_map_eq.
 Qed.
 
 Lemma length_app_le {X} (a b : list X) : (length b <= length (a ++ b))%nat.
@@ -661,7 +672,7 @@ Proof.
       apply N.eqb_neq; intros ->; discriminate).
     assert (Hno : non_optional_type (V fuel) (render_ty (TPrim p) ++ x) = (Ok (TPrim p), x)).
     { cbn [render_ty]. rewrite E. cbn [app]. rewrite nonopt_element by exact H91.
-      unfold element_type. apply alt2_ok. rewrite <- app_comm_cons, <- E. apply primitive_type_render. }
+      unfold element_type. apply alt2_ok. rewrite app_comm_cons, <- E. apply primitive_type_render. }
     split; [intros _; exact Hno|].
     cbn [render_ty] in *. rewrite E in *. cbn [app] in *. rewrite V_nonopt by exact H63. exact Hno.
   - (* optional *)
@@ -680,18 +691,21 @@ Proof.
   - (* array *)
     assert (Hwt : tywf t = true) by exact Hw.
     cbn [render_ty] in *. rewrite <- app_assoc in *.
-    destruct fuel as [|fuel]; [cbn in Hl; lia|].
-    assert (Hl' : (length (render_ty t ++ x) <= fuel)%nat) by (cbn [app length] in Hl; lia).
+    destruct fuel as [|fuel]; [cbn in Hl; lens|].
+    assert (Hl' : (length (render_ty t ++ x) <= fuel)%nat)
+      by (unfold kw_display_array, kw_display_map in Hl; cbn [app length] in Hl; lens).
     destruct (IH Hwt fuel x Hx Hl') as [_ IH2].
     assert (Hno : non_optional_type (V (S fuel)) (kw_display_array ++ render_ty t ++ x) = (Ok (TArr t), x)).
     { unfold non_optional_type. apply alt2_ok. unfold array_type.
       step (apply (literal_app kw_array)). rewrite (bind_ok _ _ _ _ _ IH2). reflexivity. }
-    split; [intros _; exact Hno|]. cbn [app]. rewrite V_nonopt by reflexivity. exact Hno.
+    split; [intros _; exact Hno|].
+    unfold kw_display_array, kw_display_map in *. cbn [app] in *. rewrite V_nonopt by reflexivity. exact Hno.
   - (* map *)
     assert (Hwt : tywf t = true) by exact Hw.
     cbn [render_ty] in *. rewrite <- app_assoc in *.
-    destruct fuel as [|fuel]; [cbn in Hl; lia|].
-    assert (Hl' : (length (render_ty t ++ x) <= fuel)%nat) by (cbn [app length] in Hl; lia).
+    destruct fuel as [|fuel]; [cbn in Hl; lens|].
+    assert (Hl' : (length (render_ty t ++ x) <= fuel)%nat)
+      by (unfold kw_display_array, kw_display_map in Hl; cbn [app length] in Hl; lens).
     destruct (IH Hwt fuel x Hx Hl') as [_ IH2].
     assert (Hno : non_optional_type (V (S fuel)) (kw_display_map ++ render_ty t ++ x) = (Ok (TMap t), x)).
     { unfold non_optional_type.
@@ -699,7 +713,8 @@ Proof.
                    = (Back, kw_display_map ++ render_ty t ++ x)) by (apply bind_back; reflexivity).
       rewrite (alt2_back _ _ _ _ Ha). apply alt2_ok. unfold map_type.
       step (apply (literal_app kw_map)). rewrite (bind_ok _ _ _ _ _ IH2). reflexivity. }
-    split; [intros _; exact Hno|]. cbn [app]. rewrite V_nonopt by reflexivity. exact Hno.
+    split; [intros _; exact Hno|].
+    unfold kw_display_array, kw_display_map in *. cbn [app] in *. rewrite V_nonopt by reflexivity. exact Hno.
   - (* custom *)
     assert (Hn : type_name_ok n = true).
     { unfold tywf in Hw. cbn in Hw. now apply andb_true_iff in Hw. }
@@ -737,7 +752,7 @@ Proof.
     pose proof (tywf_struct fs Hw) as Hfs.
     cbn [render_ty] in *. fold render_field in *. fold (render_fields fs) in *.
     bsnorm_in Hl. rewrite <- !app_assoc in Hl. cbn [app length] in Hl.
-    destruct fuel as [|fuel]; [lia|].
+    destruct fuel as [|fuel]; [lens|].
     assert (Hgood : Forall (field_good (V (S fuel)) fuel) fs).
     { apply Forall_forall. intros f Hf. rewrite Forall_forall in IH, Hfs.
       destruct (Hfs f Hf) as (H1 & H2 & H3). repeat split; auto.
@@ -749,8 +764,898 @@ Proof.
       rewrite (alt2_back _ _ _ _ (primitive_type_fail 40 _ eq_refl)).
       rewrite (alt2_back _ _ _ _ (pmap_back _ _ _ _ (type_name_fail 40 _ eq_refl))).
       unfold inline_type. apply alt2_ok.
-      apply (struct_type_render (V (S fuel)) fuel fs x Hgood). lia. }
+      apply (struct_type_render (V (S fuel)) fuel fs x Hgood). lens. }
     split; [intros _; exact Hno|].
     revert Hno. bsnorm. rewrite <- !app_assoc. cbn [app].
     intros Hno. rewrite V_nonopt by reflexivity. exact Hno.
+Qed.
+
+Lemma varlink_type_render t x :
+  tywf t = true -> delim x -> varlink_type (render_ty t ++ x) = (Ok t, x).
+Proof.
+  intros Hw Hx. unfold varlink_type.
+  destruct (type_round_trip t Hw (length (render_ty t ++ x)) x Hx (le_n _)) as [_ H]. exact H.
+Qed.
+
+(* ------------------------------------------------------------------ direct fields of members *)
+
+(* a direct field / parameter of a member: legal name, well-formed comments and type *)
+Definition dfield_ok (f : field) : bool := field_names_ok f && field_wf f.
+
+Lemma dfield_ok_parts f : dfield_ok f = true ->
+  field_name_ok (fname f) = true /\ forallb comment_ok (fcomments f) = true /\ tywf (fty f) = true.
+Proof.
+  unfold dfield_ok, field_names_ok, field_wf, comments_ok, tywf. intros H.
+  apply andb_true_iff in H. destruct H as [H1 H2]. apply andb_true_iff in H1. destruct H1 as [H11 H12].
+  apply andb_true_iff in H2. destruct H2 as [H21 H22]. rewrite H12, H22. auto.
+Qed.
+
+Lemma render_field_eq f :
+  render_field f = render_comments (fcomments f) ++ fname f ++ bs ": " ++ render_ty (fty f).
+Proof. reflexivity. Qed.
+
+(* the first byte of a rendered direct field is '#' or a letter: not a blank, not ')' *)
+Lemma render_field_hd f y : dfield_ok f = true ->
+  exists b l, render_field f ++ y = b :: l /\ is_ms b = false /\ (41 =? b) = false /\ (44 =? b) = false.
+Proof.
+  intros H. destruct (dfield_ok_parts f H) as (Hn & _ & _). rewrite render_field_eq.
+  destruct (fcomments f) as [|c cs].
+  - destruct (field_name_ok_hd _ Hn) as (b & n' & En & Hb). rewrite En. cbn [render_comments flat_map app].
+    exists b, (n' ++ bs ": " ++ render_ty (fty f) ++ y). split; [now rewrite <- !app_assoc|].
+    pose proof (alpha_startok b [] Hb) as Hs. cbn in Hs. unfold is_ms_or_hash in Hs.
+    apply orb_false_iff in Hs. destruct Hs as [Hs _]. split; [exact Hs|].
+    unfold is_alpha, is_upper, is_lower in Hb. split; apply N.eqb_neq; intros <-; discriminate.
+  - unfold render_comments. cbn [flat_map]. unfold render_comment. bsnorm. cbn [app].
+    eexists; eexists; split; [reflexivity|]. repeat split; reflexivity.
+Qed.
+
+Lemma param_entry_render f x :
+  dfield_ok f = true -> delim x -> param_entry (render_field f ++ x) = (Ok (inl f), x).
+Proof.
+  intros Hf Hx. destruct (dfield_ok_parts f Hf) as (Hn & Hc & Hw).
+  destruct (field_name_ok_hd _ Hn) as (b & n' & En & Hb).
+  rewrite render_field_eq. rewrite <- !app_assoc. unfold param_entry.
+  step (apply ppc_render; [exact Hc | rewrite En; now apply alpha_startok]).
+  step (apply field_name_app; [exact Hn | bsnorm; reflexivity]).
+  bsnorm. cbn [app].
+  step (apply ws_none; reflexivity).
+  step (apply (literal_app [58])).
+  step (apply (ws_blanks [32]); [repeat constructor | now apply render_ty_startok]).
+  step (apply varlink_type_render; assumption).
+  unfold ret. destruct f as [n t cs]. reflexivity.
+Qed.
+
+Lemma typedef_entry_field f x :
+  dfield_ok f = true -> delim x -> typedef_entry (render_field f ++ x) = (Ok (inl f), x).
+Proof.
+  intros Hf Hx. destruct (dfield_ok_parts f Hf) as (Hn & Hc & Hw).
+  destruct (field_name_ok_hd _ Hn) as (b & n' & En & Hb).
+  rewrite render_field_eq. rewrite <- !app_assoc. unfold typedef_entry.
+  step (apply ppc_render; [exact Hc | rewrite En; now apply alpha_startok]).
+  step (apply field_name_app; [exact Hn | bsnorm; reflexivity]).
+  bsnorm. cbn [app].
+  step (apply whitespace_only_none; reflexivity).
+  step (apply (try_literal_app [58])).
+  step (apply (whitespace_only_blanks [32]); [repeat constructor | apply startok_ms; now apply render_ty_startok]).
+  step (apply varlink_type_render; assumption).
+  unfold ret. destruct f as [n t cs]. reflexivity.
+Qed.
+
+(* a variant of a custom enum, with its comment block (blanks g after each comment line) and
+   blanks g2 after the name *)
+Lemma typedef_entry_variant g g2 v x :
+  field_name_ok (vname v) = true -> forallb comment_ok (vcomments v) = true -> blanks g -> blanks g2 ->
+  nfollow (g2 ++ x) -> nhd is_ms x -> nhd (fun b => b =? 58) x ->
+  typedef_entry (comment_block g (vcomments v) ++ vname v ++ g2 ++ x) = (Ok (inr v), x).
+Proof.
+  intros Hn Hc Hg Hg2 Hx1 Hx2 Hx3. destruct (field_name_ok_hd _ Hn) as (b & n' & En & Hb).
+  unfold typedef_entry.
+  step (apply ppc_block; [exact Hc | exact Hg | rewrite En; now apply alpha_startok]).
+  step (apply field_name_app; [exact Hn | exact Hx1]).
+  step (apply whitespace_only_blanks; [exact Hg2 | exact Hx2]).
+  assert (Hcolon : try_literal (bs ":") x = (Ok false, x)).
+  { bsnorm. apply try_literal_nhd. destruct x as [|c x]; [exact I|]. cbn in Hx3. now rewrite N.eqb_sym. }
+  step (exact Hcolon).
+  unfold ret. destruct v as [n cs]. reflexivity.
+Qed.
+
+(* ------------------------------------------------------------------ entries_loop *)
+
+Section EntriesLoop.
+  Context {X : Type}.
+  Variable one : parser (field + variant).
+  Variable rend : X -> list byte.
+  Variable inj : X -> field + variant.
+  (* gap after a comma: Display writes one space *)
+  Definition entries_tail (l : list X) : list byte := flat_map (fun a => bs ", " ++ rend a) l.
+
+  Definition entry_good (a : X) : Prop :=
+    (forall y, delim y -> one (rend a ++ y) = (Ok (inj a), y))
+    /\ (forall y, nhd is_ms (rend a ++ y)).
+
+  Lemma delim_entries_tail l x : delim (entries_tail l ++ 41 :: x).
+  Proof. destruct l as [|a l]; [apply delim_rparen|]. cbn [entries_tail flat_map]. bsnorm. apply delim_comma. Qed.
+
+  Lemma entries_loop_render : forall l a fuel x,
+    entry_good a -> Forall entry_good l ->
+    (length l < fuel)%nat ->
+    entries_loop one fuel (rend a ++ entries_tail l ++ 41 :: x) = (Ok (List.map inj (a :: l)), x).
+  Proof.
+    induction l as [|a' l IH]; intros a fuel x Ha Hl Hf; (destruct fuel as [|fuel]; [lia|]);
+      destruct Ha as [Ha1 Ha2]; cbn [entries_loop].
+    - cbn [entries_tail flat_map app].
+      step (apply Ha1; apply delim_rparen).
+      step (apply whitespace_only_none; reflexivity).
+      bsnorm.
+      step (apply try_literal_hd_fail; reflexivity).
+      step (apply (try_literal_app [41])).
+      reflexivity.
+    - inversion Hl as [|? ? Ha' Hl']; subst.
+      cbn [entries_tail flat_map]. rewrite <- !app_assoc. fold (entries_tail l).
+      step (apply Ha1; bsnorm; apply delim_comma).
+      bsnorm. cbn [app].
+      step (apply whitespace_only_none; reflexivity).
+      step (apply (try_literal_app [44])).
+      step (apply (whitespace_only_blanks [32]); [repeat constructor | apply (proj2 Ha')]).
+      cbn [length] in Hf.
+      step (apply IH; [exact Ha' | exact Hl' | lia]).
+      reflexivity.
+  Qed.
+End EntriesLoop.
+
+Lemma entries_tail_length {X} (rend : X -> list byte) l : (length l <= length (entries_tail rend l))%nat.
+Proof.
+  induction l as [|a l IH]; cbn [entries_tail flat_map length]; [lia|].
+  fold (entries_tail rend l). bsnorm. cbn [app length]. rewrite app_length. lia.
+Qed.
+
+Lemma lefts_map_inl {A B} (l : list A) : lefts (List.map (@inl A B) l) = l.
+Proof. induction l; cbn; congruence. Qed.
+Lemma rights_map_inl {A B} (l : list A) : rights (List.map (@inl A B) l) = [].
+Proof. induction l; cbn; congruence. Qed.
+Lemma lefts_map_inr {A B} (l : list B) : lefts (List.map (@inr A B) l) = [].
+Proof. induction l; cbn; congruence. Qed.
+Lemma rights_map_inr {A B} (l : list B) : rights (List.map (@inr A B) l) = l.
+Proof. induction l; cbn; congruence. Qed.
+
+Lemma render_fields_tail f fs :
+  render_fields (f :: fs) = render_field f ++ entries_tail render_field fs.
+Proof. rewrite render_fields_cons. reflexivity. Qed.
+
+Lemma param_entry_good f : dfield_ok f = true -> entry_good param_entry render_field inl f.
+Proof.
+  intros H. split.
+  - intros y Hy. now apply param_entry_render.
+  - intros y. destruct (render_field_hd f y H) as (b & l & E & Hb & _). rewrite E. exact Hb.
+Qed.
+
+Lemma typedef_entry_good f : dfield_ok f = true -> entry_good typedef_entry render_field inl f.
+Proof.
+  intros H. split.
+  - intros y Hy. now apply typedef_entry_field.
+  - intros y. destruct (render_field_hd f y H) as (b & l & E & Hb & _). rewrite E. exact Hb.
+Qed.
+
+(* 262-313 parameter_list on "(" fields ")" *)
+Lemma parameter_list_render fs x :
+  forallb dfield_ok fs = true ->
+  parameter_list (40 :: render_fields fs ++ 41 :: x) = (Ok fs, x).
+Proof.
+  intros Hfs. unfold parameter_list. bsnorm.
+  step (apply (literal_app [40])).
+  destruct fs as [|f fs].
+  - cbn [render_fields List.map join app].
+    step (apply whitespace_only_none; reflexivity).
+    step (apply (try_literal_app [41])).
+    reflexivity.
+  - cbn [forallb] in Hfs. apply andb_true_iff in Hfs. destruct Hfs as [Hf Hfs].
+    rewrite render_fields_tail. rewrite <- !app_assoc.
+    destruct (render_field_hd f (entries_tail render_field fs ++ 41 :: x) Hf) as (b & l & E & Hb1 & Hb2 & _).
+    step (apply whitespace_only_none; rewrite E; exact Hb1).
+    step (apply try_literal_nhd; rewrite E; exact Hb2).
+    unfold with_len.
+    step (apply (entries_loop_render param_entry render_field inl);
+          [now apply param_entry_good
+          | apply Forall_forall; intros g Hg; apply param_entry_good; rewrite forallb_forall in Hfs; now apply Hfs
+          | pose proof (entries_tail_length render_field fs); lens]).
+    unfold ret. now rewrite (lefts_map_inl (f :: fs)).
+Qed.
+
+(* ------------------------------------------------------------------ members *)
+
+Definition method_ok (m : method) : bool :=
+  type_name_ok (mname m) && comments_ok (mcomments m)
+  && forallb dfield_ok (minputs m) && forallb dfield_ok (moutputs m).
+Definition error_ok (e : error) : bool :=
+  type_name_ok (ename e) && comments_ok (ecomments e) && forallb dfield_ok (efields e).
+
+Lemma upper_not_ms b x : is_upper b = true -> nhd is_ms (b :: x).
+Proof. intros H. apply startok_ms. apply alpha_startok. now apply upper_alpha. Qed.
+
+Lemma method_def_render m x : method_ok m = true -> method_def (render_method m ++ x) = (Ok m, x).
+Proof.
+  unfold method_ok. intros H. apply andb_true_iff in H. destruct H as [H Houts].
+  apply andb_true_iff in H. destruct H as [H Hins]. apply andb_true_iff in H. destruct H as [Hn Hc].
+  destruct (type_name_ok_hd _ Hn) as (b & n' & En & Hb).
+  unfold render_method. rewrite <- !app_assoc. unfold method_def.
+  step (apply ppc_render; [exact Hc | bsnorm; reflexivity]).
+  bsnorm. cbn [app].
+  step (apply (literal_app kw_method)).
+  step (apply (take_while1_all is_ms [32]); [discriminate | repeat constructor | rewrite En; now apply upper_not_ms]).
+  step (apply type_name_app; [exact Hn | reflexivity]).
+  step (apply ws_none; reflexivity).
+  step (apply parameter_list_render; exact Hins).
+  step (apply (ws_blanks [32]); [repeat constructor | reflexivity]).
+  step (apply (literal_app kw_arrow)).
+  step (apply (ws_blanks [32]); [repeat constructor | reflexivity]).
+  step (apply parameter_list_render; exact Houts).
+  unfold ret. destruct m. reflexivity.
+Qed.
+
+Lemma error_def_render e x : error_ok e = true -> error_def (render_error e ++ x) = (Ok e, x).
+Proof.
+  unfold error_ok. intros H. apply andb_true_iff in H. destruct H as [H Hfs].
+  apply andb_true_iff in H. destruct H as [Hn Hc].
+  destruct (type_name_ok_hd _ Hn) as (b & n' & En & Hb).
+  unfold render_error. rewrite <- !app_assoc. unfold error_def.
+  step (apply ppc_render; [exact Hc | bsnorm; reflexivity]).
+  bsnorm. cbn [app].
+  step (apply (literal_app kw_error)).
+  step (apply (take_while1_all is_ms [32]); [discriminate | repeat constructor | rewrite En; now apply upper_not_ms]).
+  step (apply type_name_app; [exact Hn | reflexivity]).
+  step (apply (ws_blanks [32]); [repeat constructor | reflexivity]).
+  step (apply parameter_list_render; exact Hfs).
+  unfold ret. destruct e. reflexivity.
+Qed.
+
+(* custom types inside C14's hypotheses and outside the known class *)
+Definition variant_ok (v : variant) : bool := field_name_ok (vname v) && comments_ok (vcomments v).
+Definition enum_shape_ok (vs : list variant) : bool :=
+  match vs with
+  | [] => false
+  | [_] => true
+  | _ => forallb (fun v => negb (has_comments v)) vs
+  end.
+Definition custom_ok (c : custom) : bool :=
+  match c with
+  | CObject n fs cs => type_name_ok n && comments_ok cs && forallb dfield_ok fs
+  | CEnum n vs cs => type_name_ok n && comments_ok cs && forallb variant_ok vs && enum_shape_ok vs
+  end.
+
+(* what type_def does after comments, "type", the name and "(" *)
+Definition type_def_body (n : name) (cs : list comment) : parser custom :=
+  whitespace_only ;;; close <- try_literal (bs ")") ;;
+  if close then ret (CObject n [] cs)
+  else with_len (fun fuel =>
+     l <- entries_loop typedef_entry fuel ;;
+     let fields := lefts l in
+     let variants := rights l in
+     let has_typed := match fields with [] => false | _ => true end in
+     let has_untyped := match variants with [] => false | _ => true end in
+     if has_typed && has_untyped then fail
+     else if has_typed then ret (CObject n fields cs)
+     else ret (CEnum n variants cs)).
+
+Lemma type_def_prefix n cs rest :
+  type_name_ok n = true -> forallb comment_ok cs = true ->
+  type_def (render_comments cs ++ bs "type " ++ n ++ bs " " ++ 40 :: rest) = type_def_body n cs rest.
+Proof.
+  intros Hn Hc. destruct (type_name_ok_hd _ Hn) as (b & n' & En & Hb).
+  unfold type_def.
+  step (apply ppc_render; [exact Hc | bsnorm; reflexivity]).
+  bsnorm. cbn [app].
+  step (apply (literal_app kw_type)).
+  step (apply (take_while1_all is_ms [32]); [discriminate | repeat constructor | rewrite En; now apply upper_not_ms]).
+  step (apply type_name_app; [exact Hn | reflexivity]).
+  step (apply (ws_blanks [32]); [repeat constructor | reflexivity]).
+  step (apply (literal_app [40])).
+  reflexivity.
+Qed.
+
+Lemma existsb_false_forallb {X} (f : X -> bool) l :
+  existsb f l = false -> forallb (fun v => negb (f v)) l = true.
+Proof.
+  induction l as [|a l IH]; cbn; [reflexivity|]. intros H. apply orb_false_iff in H. destruct H as [H1 H2].
+  rewrite H1. cbn. now apply IH.
+Qed.
+
+Lemma forallb_negb_existsb {X} (f : X -> bool) l :
+  forallb (fun v => negb (f v)) l = true -> existsb f l = false.
+Proof.
+  induction l as [|a l IH]; cbn; [reflexivity|]. intros H. apply andb_true_iff in H. destruct H as [H1 H2].
+  apply negb_true_iff in H1. rewrite H1. now apply IH.
+Qed.
+
+(* the multi-line form: tab-indented comment lines, then tab, name, LF *)
+Lemma multiline_shift cs y :
+  flat_map (fun c => [9] ++ render_comment c ++ NL) cs ++ 9 :: y = 9 :: comment_block [9] cs ++ y.
+Proof.
+  induction cs as [|c cs IH]; [reflexivity|].
+  unfold comment_block in *. cbn [flat_map]. rewrite <- !app_assoc. rewrite IH.
+  unfold render_comment, NL. rewrite <- !app_assoc. cbn [app]. reflexivity.
+Qed.
+
+Definition variant_line (v : variant) : list byte := comment_block [9] (vcomments v) ++ vname v ++ [10].
+
+Lemma variant_plain_good v :
+  variant_ok v = true -> has_comments v = false -> entry_good typedef_entry vname inr v.
+Proof.
+  unfold variant_ok. intros H Hc. apply andb_true_iff in H. destruct H as [Hn Hcs].
+  assert (Hnil : vcomments v = []) by (unfold has_comments in Hc; destruct (vcomments v); [reflexivity | discriminate]).
+  split.
+  - intros y Hy.
+    pose proof (typedef_entry_variant [] [] v y Hn Hcs ltac:(constructor) ltac:(constructor)) as H.
+    rewrite Hnil in H. cbn [comment_block flat_map app] in H. apply H.
+    + now apply delim_nfollow.
+    + apply startok_ms. now apply delim_startok.
+    + destruct y as [|c y]; [exact I|]. destruct Hy; subst; reflexivity.
+  - intros y. destruct (field_name_ok_hd _ Hn) as (b & n' & En & Hb). rewrite En. cbn [app].
+    apply startok_ms. now apply alpha_startok.
+Qed.
+
+Lemma variant_line_good v :
+  variant_ok v = true -> entry_good typedef_entry variant_line inr v.
+Proof.
+  unfold variant_ok. intros H. apply andb_true_iff in H. destruct H as [Hn Hcs].
+  split.
+  - intros y Hy. unfold variant_line. rewrite <- !app_assoc.
+    apply typedef_entry_variant; auto.
+    + repeat constructor.
+    + repeat constructor.
+    + reflexivity.
+    + apply startok_ms. now apply delim_startok.
+    + destruct y as [|c y]; [exact I|]. destruct Hy; subst; reflexivity.
+  - intros y. unfold variant_line. destruct (vcomments v) as [|c cs].
+    + destruct (field_name_ok_hd _ Hn) as (b & n' & En & Hb). rewrite En. cbn [comment_block flat_map app].
+      apply startok_ms. now apply alpha_startok.
+    + rewrite <- !app_assoc. rewrite comment_block_cons. bsnorm. reflexivity.
+Qed.
+
+Lemma render_enum_one v x : has_comments v = true ->
+  render_enum_body [v] ++ x = 40 :: [10; 9] ++ variant_line v ++ entries_tail variant_line [] ++ 41 :: x.
+Proof.
+  intros H. unfold render_enum_body. cbn [existsb]. rewrite H. cbn [orb flat_map].
+  bsnorm. unfold NL. rewrite <- !app_assoc. cbn [app]. f_equal. f_equal.
+  rewrite multiline_shift. f_equal. unfold variant_line. now rewrite <- !app_assoc.
+Qed.
+
+Lemma render_enum_plain v vs x : forallb (fun w => negb (has_comments w)) (v :: vs) = true ->
+  render_enum_body (v :: vs) ++ x = 40 :: vname v ++ entries_tail vname vs ++ 41 :: x.
+Proof.
+  intros H. rewrite render_enum_single by exact H. cbn [List.map]. rewrite join_names.
+  assert (Etail : names_tail (List.map vname vs) = entries_tail vname vs).
+  { unfold names_tail, entries_tail. now rewrite flat_map_map. }
+  rewrite Etail. bsnorm. rewrite <- !app_assoc. reflexivity.
+Qed.
+
+Lemma type_def_render c x : custom_ok c = true -> type_def (render_custom c ++ x) = (Ok c, x).
+Proof.
+  destruct c as [n fs cs | n vs cs]; cbn [custom_ok render_custom]; intros H.
+  - (* object *)
+    apply andb_true_iff in H. destruct H as [H Hfs]. apply andb_true_iff in H. destruct H as [Hn Hc].
+    unfold render_object. rewrite <- !app_assoc.
+    transitivity (type_def_body n cs (render_fields fs ++ 41 :: x));
+      [apply (type_def_prefix n cs _ Hn Hc)|].
+    unfold type_def_body.
+    destruct fs as [|f fs].
+    + cbn [render_fields List.map join app].
+      step (apply whitespace_only_none; reflexivity).
+      step (apply (try_literal_app [41])).
+      reflexivity.
+    + cbn [forallb] in Hfs. apply andb_true_iff in Hfs. destruct Hfs as [Hf Hfs].
+      rewrite render_fields_tail. rewrite <- !app_assoc.
+      destruct (render_field_hd f (entries_tail render_field fs ++ 41 :: x) Hf) as (b & l & E & Hb1 & Hb2 & _).
+      step (apply whitespace_only_none; rewrite E; exact Hb1).
+      step (bsnorm; apply try_literal_nhd; rewrite E; exact Hb2).
+      unfold with_len.
+      step (apply (entries_loop_render typedef_entry render_field inl);
+            [now apply typedef_entry_good
+            | apply Forall_forall; intros g Hg; apply typedef_entry_good; rewrite forallb_forall in Hfs; now apply Hfs
+            | pose proof (entries_tail_length render_field fs); lens]).
+      cbn zeta. rewrite (lefts_map_inl (f :: fs)), (rights_map_inl (f :: fs)). reflexivity.
+  - (* enum *)
+    apply andb_true_iff in H. destruct H as [H Hshape]. apply andb_true_iff in H. destruct H as [H Hvs].
+    apply andb_true_iff in H. destruct H as [Hn Hc].
+    unfold render_cenum. rewrite <- !app_assoc.
+    destruct (existsb has_comments vs) eqn:Eex.
+    + (* exactly one variant, commented: multi-line form *)
+      assert (Hone : exists v, vs = [v]).
+      { destruct vs as [|v [|v2 vs]]; [discriminate | eauto |].
+        cbn [enum_shape_ok] in Hshape. apply forallb_negb_existsb in Hshape. congruence. }
+      destruct Hone as [v ->]. cbn [forallb] in Hvs. apply andb_true_iff in Hvs. destruct Hvs as [Hv _].
+      assert (Hhc : has_comments v = true) by (cbn in Eex; now rewrite orb_false_r in Eex).
+      rewrite render_enum_one by exact Hhc.
+      transitivity (type_def_body n cs ([10; 9] ++ variant_line v ++ entries_tail variant_line [] ++ 41 :: x));
+        [apply (type_def_prefix n cs _ Hn Hc)|].
+      unfold type_def_body.
+      destruct (variant_line_good v Hv) as [Hg1 Hg2].
+      step (apply (whitespace_only_blanks [10; 9]); [repeat constructor | apply Hg2]).
+      assert (Hnp : try_literal (bs ")") (variant_line v ++ entries_tail variant_line [] ++ 41 :: x)
+                    = (Ok false, variant_line v ++ entries_tail variant_line [] ++ 41 :: x)).
+      { bsnorm. apply try_literal_nhd. unfold variant_line.
+        assert (Hcs : vcomments v <> []) by (cbn in Eex; unfold has_comments in Eex; destruct (vcomments v); [discriminate | congruence]).
+        destruct (vcomments v) as [|c0 cs0]; [congruence|]. rewrite <- !app_assoc. rewrite comment_block_cons.
+        bsnorm. reflexivity. }
+      step (exact Hnp).
+      unfold with_len.
+      step (apply (entries_loop_render typedef_entry variant_line inr);
+            [split; assumption | constructor | cbn; lia]).
+      cbn zeta. cbn [List.map lefts rights andb]. reflexivity.
+    + (* no commented variant: single-line form *)
+      pose proof (existsb_false_forallb _ _ Eex) as Hnc.
+      destruct vs as [|v vs]; [discriminate|].
+      rewrite render_enum_plain by exact Hnc.
+      cbn [forallb] in Hvs, Hnc. apply andb_true_iff in Hvs. destruct Hvs as [Hv Hvs].
+      apply andb_true_iff in Hnc. destruct Hnc as [Hncv Hncs]. apply negb_true_iff in Hncv.
+      transitivity (type_def_body n cs (vname v ++ entries_tail vname vs ++ 41 :: x));
+        [apply (type_def_prefix n cs _ Hn Hc)|].
+      unfold type_def_body.
+      destruct (variant_plain_good v Hv Hncv) as [Hg1 Hg2].
+      step (apply whitespace_only_none; apply Hg2).
+      assert (Hnp : try_literal (bs ")") (vname v ++ entries_tail vname vs ++ 41 :: x)
+                    = (Ok false, vname v ++ entries_tail vname vs ++ 41 :: x)).
+      { bsnorm. apply try_literal_nhd. unfold variant_ok in Hv. apply andb_true_iff in Hv. destruct Hv as [Hvn _].
+        destruct (field_name_ok_hd _ Hvn) as (b & n' & En & Hb). rewrite En. cbn [app].
+        unfold is_alpha, is_upper, is_lower in Hb. apply N.eqb_neq. intros <-. discriminate. }
+      step (exact Hnp).
+      unfold with_len.
+      step (apply (entries_loop_render typedef_entry vname inr);
+            [split; assumption
+            | apply Forall_forall; intros w Hw; rewrite forallb_forall in Hvs, Hncs;
+              apply variant_plain_good; [now apply Hvs | apply negb_true_iff; now apply Hncs]
+            | pose proof (entries_tail_length vname vs); lens]).
+      cbn zeta. rewrite (lefts_map_inr (v :: vs)), (rights_map_inr (v :: vs)). reflexivity.
+Qed.
+
+(* ------------------------------------------------------------------ member_p *)
+
+Definition member_ok (m : member) : bool :=
+  match m with MType c => custom_ok c | MMethod m => method_ok m | MError e => error_ok e end.
+
+Lemma type_def_back cs rest :
+  forallb comment_ok cs = true -> startok rest -> literal kw_type rest = (Back, rest) ->
+  type_def (render_comments cs ++ rest) = (Back, rest).
+Proof.
+  intros Hc Hs Hl. unfold type_def.
+  step (apply ppc_render; [exact Hc | exact Hs]).
+  now apply bind_back.
+Qed.
+
+Lemma method_def_back cs rest :
+  forallb comment_ok cs = true -> startok rest -> literal kw_method rest = (Back, rest) ->
+  method_def (render_comments cs ++ rest) = (Back, rest).
+Proof.
+  intros Hc Hs Hl. unfold method_def.
+  step (apply ppc_render; [exact Hc | exact Hs]).
+  now apply bind_back.
+Qed.
+
+Lemma member_p_render m x : member_ok m = true -> member_p (render_member m ++ x) = (Ok m, x).
+Proof.
+  destruct m as [c | m | e]; cbn [member_ok render_member]; intros H; unfold member_p.
+  - apply alt2_ok. apply pmap_ok. now apply type_def_render.
+  - assert (Hc : forallb comment_ok (mcomments m) = true).
+    { unfold method_ok in H. repeat (apply andb_true_iff in H; destruct H as [H ?]). assumption. }
+    assert (Hb : exists j, pmap MType type_def (render_method m ++ x) = (Back, j)).
+    { eexists. apply pmap_back. unfold render_method. rewrite <- !app_assoc.
+      apply type_def_back; [exact Hc | bsnorm; reflexivity | bsnorm; reflexivity]. }
+    destruct Hb as [j Hb]. rewrite (alt2_back _ _ _ _ Hb).
+    apply alt2_ok. apply pmap_ok. now apply method_def_render.
+  - assert (Hc : forallb comment_ok (ecomments e) = true).
+    { unfold error_ok in H. repeat (apply andb_true_iff in H; destruct H as [H ?]). assumption. }
+    assert (Hb : exists j, pmap MType type_def (render_error e ++ x) = (Back, j)).
+    { eexists. apply pmap_back. unfold render_error. rewrite <- !app_assoc.
+      apply type_def_back; [exact Hc | bsnorm; reflexivity | bsnorm; reflexivity]. }
+    destruct Hb as [j Hb]. rewrite (alt2_back _ _ _ _ Hb).
+    assert (Hb2 : exists j, pmap MMethod method_def (render_error e ++ x) = (Back, j)).
+    { eexists. apply pmap_back. unfold render_error. rewrite <- !app_assoc.
+      apply method_def_back; [exact Hc | bsnorm; reflexivity | bsnorm; reflexivity]. }
+    destruct Hb2 as [j2 Hb2]. rewrite (alt2_back _ _ _ _ Hb2).
+    apply pmap_ok. now apply error_def_render.
+Qed.
+
+(* every rendered member starts with '#' or a keyword letter *)
+Lemma render_comments_then_hd cs rest y :
+  (exists b l, rest = b :: l /\ is_ms b = false) ->
+  exists b l, render_comments cs ++ rest ++ y = b :: l /\ is_ms b = false.
+Proof.
+  intros (b & l & E & Hb). destruct cs as [|c cs].
+  - cbn [render_comments flat_map app]. subst rest. cbn [app]. eauto.
+  - unfold render_comments. cbn [flat_map]. unfold render_comment. bsnorm. cbn [app]. eauto.
+Qed.
+
+Lemma render_member_hd m y : exists b l, render_member m ++ y = b :: l /\ is_ms b = false.
+Proof.
+  destruct m as [[n fs cs | n vs cs] | m | e]; cbn [render_member render_custom];
+    [unfold render_object | unfold render_cenum | unfold render_method | unfold render_error];
+    rewrite <- !app_assoc;
+    match goal with |- exists b l, render_comments ?cs ++ ?k ++ ?rest = _ /\ _ =>
+      apply (render_comments_then_hd cs k rest) end;
+    bsnorm; eexists; eexists; split; reflexivity.
+Qed.
+
+Definition members_text (ms : list member) : list byte :=
+  flat_map (fun m => NL ++ NL ++ render_member m) ms.
+
+Lemma members_loop_render : forall ms fuel,
+  forallb member_ok ms = true -> (length ms < fuel)%nat ->
+  members_loop fuel (members_text ms) = (Ok ms, []).
+Proof.
+  induction ms as [|m ms IH]; intros fuel Hms Hf; (destruct fuel as [|fuel]; [lia|]).
+  - reflexivity.
+  - cbn [forallb] in Hms. apply andb_true_iff in Hms. destruct Hms as [Hm Hms].
+    cbn [members_text flat_map]. fold (members_text ms). unfold NL. rewrite <- !app_assoc. cbn [app].
+    cbn [members_loop].
+    destruct (render_member_hd m (members_text ms)) as (b & l & E & Hb).
+    change (10 :: 10 :: render_member m ++ members_text ms) with ([10; 10] ++ render_member m ++ members_text ms).
+    rewrite skip_ms_blanks; [|repeat constructor | rewrite E; exact Hb].
+    rewrite E. rewrite <- E.
+    rewrite member_p_render by exact Hm.
+    cbn [length] in Hf. rewrite IH; [reflexivity | exact Hms | lia].
+Qed.
+
+(* ------------------------------------------------------------------ interface_name *)
+
+Definition segs_text (ss : list (list byte)) : list byte := flat_map (fun s => 46 :: s) ss.
+Definition seg_ok (s : list byte) : bool :=
+  match s with b :: l => is_alnum b && seg_tail_ok l | [] => false end.
+
+Lemma split_dots_spec : forall l cur,
+  exists s ss, split_dots l cur = s :: ss /\ rev cur ++ l = s ++ segs_text ss.
+Proof.
+  induction l as [|b l IH]; intros cur; cbn [split_dots].
+  - exists (rev cur), []. split; [reflexivity|]. cbn. reflexivity.
+  - destruct (b =? 46) eqn:E.
+    + nb. subst b. destruct (IH []) as (s & ss & E1 & E2). rewrite E1.
+      exists (rev cur), (s :: ss). split; [reflexivity|]. cbn [segs_text flat_map]. fold (segs_text ss).
+      cbn [rev app] in E2. now rewrite E2.
+    + destruct (IH (b :: cur)) as (s & ss & E1 & E2). exists s, ss. split; [exact E1|].
+      cbn [rev] in E2. rewrite <- app_assoc in E2. exact E2.
+Qed.
+
+Lemma interface_name_ok_decomp n : interface_name_ok n = true ->
+  exists b l ss, n = (b :: l) ++ segs_text ss /\ is_alpha b = true /\ seg_tail_ok l = true
+                 /\ ss <> [] /\ forallb seg_ok ss = true.
+Proof.
+  unfold interface_name_ok. destruct (split_dots_spec n []) as (s & ss & E1 & E2). rewrite E1.
+  cbn [rev app] in E2. destruct ss as [|s2 ss]; [discriminate|].
+  intros H. apply andb_true_iff in H. destruct H as [H1 H2].
+  destruct s as [|b l]; [discriminate|]. apply andb_true_iff in H1. destruct H1 as [Hb Hl].
+  exists b, l, (s2 :: ss). repeat split; auto. discriminate.
+Qed.
+
+Lemma alnum_not_dash b : is_alnum b = true -> (b =? 45) = false.
+Proof.
+  intros H. apply N.eqb_neq. intros ->. discriminate.
+Qed.
+
+Lemma seg_tail_ok_tl b l : seg_tail_ok (b :: l) = true -> seg_tail_ok l = true.
+Proof.
+  cbn. destruct (is_alnum b); [auto|]. destruct (b =? 45); [|discriminate]. destruct l; [discriminate | auto].
+Qed.
+
+Lemma seg_tail_chars l : seg_tail_ok l = true -> Forall (fun c => is_seg_char c = true) l.
+Proof.
+  induction l as [|b l IH]; intros H; [constructor|]. constructor; [|apply IH; eapply seg_tail_ok_tl; eauto].
+  cbn in H. unfold is_seg_char. destruct (is_alnum b); [reflexivity|]. destruct (b =? 45); [reflexivity | discriminate].
+Qed.
+
+Lemma seg_tail_last l : seg_tail_ok l = true ->
+  match rev l with [] => True | b :: _ => (b =? 45) = false end.
+Proof.
+  induction l as [|b l IH]; intros H; [exact I|].
+  pose proof (IH (seg_tail_ok_tl _ _ H)) as IH'. cbn [rev].
+  destruct (rev l) as [|c r] eqn:Er.
+  - assert (l = []) by (destruct l; [reflexivity|]; cbn in Er; destruct (rev l); discriminate). subst l.
+    cbn. cbn in H. destruct (is_alnum b) eqn:Ea; [now apply alnum_not_dash|].
+    destruct (b =? 45); discriminate.
+  - cbn [app]. exact IH'.
+Qed.
+
+Lemma strip_dashes_rev_none r : match r with [] => True | b :: _ => (b =? 45) = false end ->
+  strip_dashes_rev r [] = (r, []).
+Proof. destruct r as [|b r]; cbn; [reflexivity|]. intros H. now rewrite H. Qed.
+
+Lemma seg_body_app l rest :
+  seg_tail_ok l = true -> nhd is_seg_char rest -> seg_body (l ++ rest) = (l, rest).
+Proof.
+  intros Hl Hr. unfold seg_body. rewrite span_all; [|now apply seg_tail_chars | exact Hr].
+  rewrite strip_dashes_rev_none by now apply seg_tail_last. now rewrite rev_involutive.
+Qed.
+
+Definition ifollow := nhd (fun b => is_seg_char b || (b =? 46)).
+
+Lemma segs_text_follow ss rest : ifollow rest -> nhd is_seg_char (segs_text ss ++ rest).
+Proof.
+  intros H. destruct ss as [|s ss]; [|reflexivity]. cbn [segs_text flat_map app].
+  destruct rest as [|b r]; [exact I|]. cbn in H |- *. now apply orb_false_iff in H.
+Qed.
+
+Lemma iname_segments_app : forall ss fuel rest,
+  forallb seg_ok ss = true -> ifollow rest -> (length ss < fuel)%nat ->
+  iname_segments fuel (segs_text ss ++ rest)
+  = (match ss with [] => false | _ => true end, segs_text ss, rest).
+Proof.
+  induction ss as [|s ss IH]; intros fuel rest Hss Hr Hf; (destruct fuel as [|fuel]; [lia|]).
+  - cbn [segs_text flat_map app iname_segments]. destruct rest as [|b r]; [reflexivity|].
+    cbn in Hr. apply orb_false_iff in Hr. destruct Hr as [_ Hr]. now rewrite Hr.
+  - cbn [forallb] in Hss. apply andb_true_iff in Hss. destruct Hss as [Hs Hss].
+    destruct s as [|c l]; [discriminate|]. cbn [seg_ok] in Hs. apply andb_true_iff in Hs. destruct Hs as [Hc Hl].
+    cbn [segs_text flat_map]. fold (segs_text ss). rewrite <- !app_assoc. cbn [app iname_segments].
+    rewrite Hc. change (46 =? 46) with true. cbv iota.
+    rewrite seg_body_app; [|exact Hl | now apply segs_text_follow].
+    cbn [length] in Hf. rewrite IH; [|exact Hss | exact Hr | lia].
+    reflexivity.
+Qed.
+
+Lemma segs_text_length ss : (length ss <= length (segs_text ss))%nat.
+Proof.
+  induction ss as [|s ss IH]; cbn [segs_text flat_map length]; [lia|]. fold (segs_text ss).
+  cbn [app length]. unfold byte in *. rewrite app_length. lia.
+Qed.
+
+Lemma seg_ascii l : Forall (fun c => is_seg_char c = true) l -> Forall ascii l.
+Proof. intros H. eapply Forall_impl; [|exact H]. intros c Hc. now apply is_seg_char_ascii. Qed.
+
+Lemma segs_text_ascii ss : forallb seg_ok ss = true -> Forall ascii (segs_text ss).
+Proof.
+  induction ss as [|s ss IH]; intros H; [constructor|].
+  cbn [forallb] in H. apply andb_true_iff in H. destruct H as [Hs Hss].
+  cbn [segs_text flat_map]. fold (segs_text ss). constructor; [reflexivity|].
+  apply Forall_app. split; [|now apply IH].
+  destruct s as [|c l]; [constructor|]. cbn [seg_ok] in Hs. apply andb_true_iff in Hs. destruct Hs as [Hc Hl].
+  constructor; [now apply is_alnum_ascii | apply seg_ascii; now apply seg_tail_chars].
+Qed.
+
+Lemma interface_name_app n rest :
+  interface_name_ok n = true -> ifollow rest -> interface_name (n ++ rest) = (Ok n, rest).
+Proof.
+  intros Hn Hr. destruct (interface_name_ok_decomp n Hn) as (b & l & ss & En & Hb & Hl & Hne & Hss).
+  subst n. rewrite <- !app_assoc. cbn [app interface_name]. rewrite Hb.
+  rewrite seg_body_app; [|exact Hl | now apply segs_text_follow].
+  rewrite iname_segments_app; [|exact Hss | exact Hr | pose proof (segs_text_length ss); lens].
+  destruct ss as [|s ss]; [congruence|].
+  unfold bytes_to_str. rewrite valid_ascii; [reflexivity|].
+  constructor; [now apply is_alpha_ascii|]. apply Forall_app. split.
+  - apply seg_ascii. now apply seg_tail_chars.
+  - now apply segs_text_ascii.
+Qed.
+
+(* ------------------------------------------------------------------ the interface *)
+
+Definition iface_ok (t : interface) : bool :=
+  interface_name_ok (iname t) && comments_ok (icomments t)
+  && forallb custom_ok (itypes t) && forallb method_ok (imethods t) && forallb error_ok (ierrors t).
+
+Lemma render_members t :
+  render t = render_comments (icomments t) ++ bs "interface " ++ iname t ++ members_text (members_of t).
+Proof.
+  unfold render, members_of, members_text. rewrite !flat_map_app, !flat_map_map. reflexivity.
+Qed.
+
+Lemma mem_types_app a b : mem_types (a ++ b) = mem_types a ++ mem_types b.
+Proof. induction a as [|[c|m|e] a IH]; cbn; congruence. Qed.
+Lemma mem_methods_app a b : mem_methods (a ++ b) = mem_methods a ++ mem_methods b.
+Proof. induction a as [|[c|m|e] a IH]; cbn; congruence. Qed.
+Lemma mem_errors_app a b : mem_errors (a ++ b) = mem_errors a ++ mem_errors b.
+Proof. induction a as [|[c|m|e] a IH]; cbn; congruence. Qed.
+
+Lemma mem_types_T l : mem_types (List.map MType l) = l. Proof. induction l; cbn; congruence. Qed.
+Lemma mem_types_M l : mem_types (List.map MMethod l) = []. Proof. induction l; cbn; congruence. Qed.
+Lemma mem_types_E l : mem_types (List.map MError l) = []. Proof. induction l; cbn; congruence. Qed.
+Lemma mem_methods_T l : mem_methods (List.map MType l) = []. Proof. induction l; cbn; congruence. Qed.
+Lemma mem_methods_M l : mem_methods (List.map MMethod l) = l. Proof. induction l; cbn; congruence. Qed.
+Lemma mem_methods_E l : mem_methods (List.map MError l) = []. Proof. induction l; cbn; congruence. Qed.
+Lemma mem_errors_T l : mem_errors (List.map MType l) = []. Proof. induction l; cbn; congruence. Qed.
+Lemma mem_errors_M l : mem_errors (List.map MMethod l) = []. Proof. induction l; cbn; congruence. Qed.
+Lemma mem_errors_E l : mem_errors (List.map MError l) = l. Proof. induction l; cbn; congruence. Qed.
+
+Lemma interface_of_members t : interface_of (iname t) (icomments t) (members_of t) = t.
+Proof.
+  unfold interface_of, members_of.
+  rewrite !mem_types_app, !mem_methods_app, !mem_errors_app.
+  rewrite mem_types_T, mem_types_M, mem_types_E, mem_methods_T, mem_methods_M, mem_methods_E,
+    mem_errors_T, mem_errors_M, mem_errors_E.
+  cbn [app]. rewrite !app_nil_r. destruct t. reflexivity.
+Qed.
+
+Lemma members_ok t : iface_ok t = true -> forallb member_ok (members_of t) = true.
+Proof.
+  unfold iface_ok, members_of. intros H.
+  apply andb_true_iff in H. destruct H as [H He]. apply andb_true_iff in H. destruct H as [H Hm].
+  apply andb_true_iff in H. destruct H as [_ Ht].
+  rewrite !forallb_app, !forallb_map_eq.
+  apply andb_true_iff; split; [exact Ht | apply andb_true_iff; split; [exact Hm | exact He]].
+Qed.
+
+(* the members after the blanks that precede the first one *)
+Definition members_body (ms : list member) : list byte :=
+  match ms with [] => [] | m :: ms' => render_member m ++ members_text ms' end.
+
+Lemma members_text_body ms :
+  members_text ms = match ms with [] => [] | _ => [10; 10] ++ members_body ms end.
+Proof. destruct ms as [|m ms]; [reflexivity|]. cbn [members_text flat_map members_body]. unfold NL. now rewrite <- !app_assoc. Qed.
+
+Lemma members_loop_body : forall ms fuel g,
+  forallb member_ok ms = true -> blanks g -> (length ms < fuel)%nat ->
+  members_loop fuel (g ++ members_body ms) = (Ok ms, []).
+Proof.
+  induction ms as [|m ms IH]; intros fuel g Hms Hg Hf; (destruct fuel as [|fuel]; [lia|]).
+  - cbn [members_body]. rewrite app_nil_r. cbn [members_loop]. destruct g as [|b g]; [reflexivity|].
+    replace (skip_ms (b :: g)) with (@nil byte); [reflexivity|].
+    symmetry. rewrite <- (app_nil_r (b :: g)). apply skip_ms_blanks; [exact Hg | exact I].
+  - cbn [forallb] in Hms. apply andb_true_iff in Hms. destruct Hms as [Hm Hms].
+    cbn [members_body].
+    destruct (render_member_hd m (members_text ms)) as (b & l & E & Hb).
+    assert (Hne : exists b0 l0, g ++ render_member m ++ members_text ms = b0 :: l0).
+    { destruct g as [|b0 g0]; [rewrite E; cbn; eauto | cbn; eauto]. }
+    destruct Hne as (b0 & l0 & Hne). cbn [members_loop]. rewrite Hne. rewrite <- Hne.
+    rewrite skip_ms_blanks; [|exact Hg | rewrite E; exact Hb].
+    rewrite E. rewrite <- E.
+    rewrite member_p_render by exact Hm.
+    cbn [length] in Hf. rewrite members_text_body.
+    destruct ms as [|m2 ms2]; cbv beta iota.
+    + destruct fuel as [|fuel]; [lia|]. reflexivity.
+    + rewrite (IH fuel [10; 10]); [reflexivity | exact Hms | repeat constructor | lia].
+Qed.
+
+Lemma interface_def_render t : iface_ok t = true -> interface_def (render t) = (Ok t, []).
+Proof.
+  intros Hok. pose proof (members_ok t Hok) as Hms.
+  unfold iface_ok in Hok.
+  apply andb_true_iff in Hok. destruct Hok as [Hok _]. apply andb_true_iff in Hok. destruct Hok as [Hok _].
+  apply andb_true_iff in Hok. destruct Hok as [Hok _]. apply andb_true_iff in Hok. destruct Hok as [Hn Hc].
+  destruct (interface_name_ok_decomp _ Hn) as (b & l & ss & En & Hb & _).
+  rewrite render_members. unfold interface_def.
+  step (apply ppc_render; [exact Hc | bsnorm; reflexivity]).
+  bsnorm. cbn [app].
+  step (apply (literal_app kw_interface)).
+  step (apply (take_while1_all is_ms [32]); [discriminate | repeat constructor |
+        rewrite En; cbn [app]; apply startok_ms; now apply alpha_startok]).
+  step (apply interface_name_app; [exact Hn |
+        rewrite members_text_body; destruct (members_of t); reflexivity]).
+  rewrite members_text_body.
+  assert (Hws : whitespace_only (match members_of t with [] => [] | _ => [10; 10] ++ members_body (members_of t) end)
+                = (Ok tt, members_body (members_of t))).
+  { destruct (members_of t) as [|m ms] eqn:Em; [reflexivity|].
+    apply whitespace_only_blanks; [repeat constructor|].
+    cbn [members_body]. destruct (render_member_hd m (members_text ms)) as (b1 & l1 & E1 & Hb1).
+    rewrite E1. exact Hb1. }
+  step (exact Hws).
+  unfold with_len.
+  step (apply (members_loop_body (members_of t) _ []); [exact Hms | constructor | lia]).
+  unfold ret. now rewrite interface_of_members.
+Qed.
+
+(* ------------------------------------------------------------------ trim is the identity *)
+
+Definition graphic (c : byte) : Prop := 33 <= c /\ c <= 126.
+
+Lemma ws_char_len_graphic c r : graphic c -> ws_char_len (c :: r) = O.
+Proof.
+  intros [H1 H2]. unfold ws_char_len.
+  replace (((9 <=? c) && (c <=? 13)) || (c =? 32)) with false.
+  2:{ symmetry. apply orb_false_iff. split; [apply andb_false_iff; right; apply N.leb_gt; lia | apply N.eqb_neq; lia]. }
+  replace (c =? 194) with false by (symmetry; apply N.eqb_neq; lia).
+  replace (c =? 225) with false by (symmetry; apply N.eqb_neq; lia).
+  replace (c =? 226) with false by (symmetry; apply N.eqb_neq; lia).
+  replace (c =? 227) with false by (symmetry; apply N.eqb_neq; lia).
+  reflexivity.
+Qed.
+
+Lemma ws_char_len_rev_graphic c r : graphic c -> ws_char_len_rev (c :: r) = O.
+Proof.
+  intros [H1 H2]. unfold ws_char_len_rev.
+  replace (((9 <=? c) && (c <=? 13)) || (c =? 32)) with false.
+  2:{ symmetry. apply orb_false_iff. split; [apply andb_false_iff; right; apply N.leb_gt; lia | apply N.eqb_neq; lia]. }
+  assert (E133 : (c =? 133) = false) by (apply N.eqb_neq; lia).
+  assert (E160 : (c =? 160) = false) by (apply N.eqb_neq; lia).
+  assert (E128 : (c =? 128) = false) by (apply N.eqb_neq; lia).
+  assert (E159 : (c =? 159) = false) by (apply N.eqb_neq; lia).
+  assert (E168 : (c =? 168) = false) by (apply N.eqb_neq; lia).
+  assert (E169 : (c =? 169) = false) by (apply N.eqb_neq; lia).
+  assert (E175 : (c =? 175) = false) by (apply N.eqb_neq; lia).
+  assert (Ege : (128 <=? c) = false) by (apply N.leb_gt; lia).
+  destruct r as [|b r']; [reflexivity|]. rewrite E133, E160. rewrite andb_false_r.
+  destruct r' as [|a r'']; [reflexivity|].
+  rewrite E128, E159, E168, E169, E175, Ege. rewrite !andb_false_r. reflexivity.
+Qed.
+
+Lemma trim_graphic l c1 c2 front back :
+  l = c1 :: back -> l = front ++ [c2] -> graphic c1 -> graphic c2 -> trim l = l.
+Proof.
+  intros E1 E2 H1 H2. unfold trim.
+  assert (Hs : trim_start l = l).
+  { unfold trim_start. destruct (length l); [reflexivity|]. cbn [strip_while]. rewrite E1.
+    now rewrite ws_char_len_graphic. }
+  rewrite Hs. unfold trim_end. destruct (length l); cbn [strip_while]; [apply rev_involutive|].
+  rewrite E2 at 1. rewrite rev_app_distr. cbn [rev app]. rewrite ws_char_len_rev_graphic by exact H2.
+  rewrite <- (rev_involutive l) at 2. f_equal. rewrite E2. rewrite rev_app_distr. reflexivity.
+Qed.
+
+Lemma alnum_graphic c : is_alnum c = true -> graphic c.
+Proof.
+  unfold is_alnum, is_alpha, is_upper, is_lower, is_digit, graphic. intros H.
+  repeat (apply orb_true_iff in H; destruct H as [H|H]); nb; lia.
+Qed.
+
+(* the last byte of a legal interface name is a letter or digit *)
+Lemma seg_tail_last_alnum l : seg_tail_ok l = true -> l <> [] ->
+  exists front c, l = front ++ [c] /\ is_alnum c = true.
+Proof.
+  intros H Hne. destruct (exists_last Hne) as (front & c & E). exists front, c. split; [exact E|].
+  pose proof (seg_tail_last l H) as Hl. pose proof (seg_tail_chars l H) as Hc.
+  subst l. rewrite rev_app_distr in Hl. cbn in Hl.
+  rewrite Forall_app in Hc. destruct Hc as [_ Hc]. inversion Hc as [|? ? Hcc _]; subst.
+  unfold is_seg_char in Hcc. rewrite Hl in Hcc. now rewrite orb_false_r in Hcc.
+Qed.
+
+Lemma seg_last_alnum s : seg_ok s = true -> exists front c, s = front ++ [c] /\ is_alnum c = true.
+Proof.
+  destruct s as [|b l]; [discriminate|]. cbn [seg_ok]. intros H. apply andb_true_iff in H. destruct H as [Hb Hl].
+  destruct l as [|b2 l2]; [exists [], b; auto|].
+  destruct (seg_tail_last_alnum (b2 :: l2) Hl ltac:(discriminate)) as (front & c & E & Hc).
+  exists (b :: front), c. split; [cbn; now rewrite E | exact Hc].
+Qed.
+
+Lemma interface_name_last n : interface_name_ok n = true ->
+  exists front c, n = front ++ [c] /\ is_alnum c = true.
+Proof.
+  intros Hn. destruct (interface_name_ok_decomp n Hn) as (b & l & ss & En & Hb & Hl & Hne & Hss).
+  destruct (exists_last Hne) as (ss' & s & Ess). subst ss.
+  rewrite forallb_app in Hss. apply andb_true_iff in Hss. destruct Hss as [_ Hs]. cbn in Hs.
+  rewrite andb_true_r in Hs. destruct (seg_last_alnum s Hs) as (front & c & Es & Hc).
+  exists ((b :: l) ++ segs_text ss' ++ 46 :: front), c. split; [|exact Hc].
+  subst n. unfold segs_text. rewrite flat_map_app. cbn [flat_map]. rewrite app_nil_r. rewrite Es.
+  rewrite <- !app_assoc. cbn [app]. reflexivity.
+Qed.
+
+Lemma render_member_last m : exists front, render_member m = front ++ [41].
+Proof.
+  destruct m as [[n fs cs | n vs cs] | m | e]; cbn [render_member render_custom].
+  - unfold render_object. bsnorm. eexists. rewrite !app_assoc. reflexivity.
+  - unfold render_cenum, render_enum_body. destruct (existsb has_comments vs); bsnorm;
+      eexists; rewrite !app_assoc; reflexivity.
+  - unfold render_method. bsnorm. eexists. rewrite !app_assoc. reflexivity.
+  - unfold render_error. bsnorm. eexists. rewrite !app_assoc. reflexivity.
+Qed.
+
+Lemma render_first t : exists c back, render t = c :: back /\ graphic c.
+Proof.
+  unfold render. rewrite <- !app_assoc. destruct (icomments t) as [|c cs].
+  - cbn [render_comments flat_map app]. bsnorm. cbn [app]. eexists; eexists; split; [reflexivity|].
+    unfold graphic. lia.
+  - unfold render_comments. cbn [flat_map]. unfold render_comment. bsnorm. cbn [app].
+    eexists; eexists; split; [reflexivity|]. unfold graphic. lia.
+Qed.
+
+Lemma render_last t : iface_ok t = true -> exists front c, render t = front ++ [c] /\ graphic c.
+Proof.
+  intros Hok. rewrite render_members.
+  destruct (members_of t) as [|m0 ms0] eqn:Em.
+  - cbn [members_text flat_map]. rewrite app_nil_r.
+    unfold iface_ok in Hok. repeat (apply andb_true_iff in Hok; destruct Hok as [Hok ?]).
+    destruct (interface_name_last _ Hok) as (front & c & E & Hc).
+    exists (render_comments (icomments t) ++ bs "interface " ++ front), c. split; [|now apply alnum_graphic].
+    rewrite E. now rewrite <- !app_assoc.
+  - assert (Hne : m0 :: ms0 <> []) by discriminate.
+    destruct (exists_last Hne) as (ms' & m & Ems). rewrite Ems.
+    destruct (render_member_last m) as (front & Ef).
+    unfold members_text. rewrite flat_map_app. cbn [flat_map]. rewrite app_nil_r. rewrite Ef.
+    eexists. exists 41. split; [|unfold graphic; lia].
+    rewrite !app_assoc. reflexivity.
+Qed.
+
+Lemma trim_render t : iface_ok t = true -> trim (render t) = render t.
+Proof.
+  intros Hok. destruct (render_first t) as (c1 & back & E1 & H1).
+  destruct (render_last t Hok) as (front & c2 & E2 & H2).
+  eapply trim_graphic; eauto.
+Qed.
+
+Theorem parse_render t : iface_ok t = true -> parse_interface (render t) = Accept t.
+Proof.
+  intros Hok. unfold parse_interface. rewrite trim_render by exact Hok.
+  destruct (render_first t) as (c1 & back & E1 & _). rewrite E1. rewrite <- E1.
+  rewrite interface_def_render by exact Hok. reflexivity.
 Qed.
